@@ -1788,7 +1788,17 @@ func runC19(c *Ctx) {
 			n1, ok1 := field(a[0], "Year")
 			n2, ok2 := field(a[1], "Month")
 			n3, ok3 := field(a[2], "Day")
-			if ok1 && ok2 && ok3 && n1 == n2 && n2 == n3 && isZero(a[3]) && isZero(a[4]) && isZero(a[5]) && isZero(a[6]) && isLocal(a[7]) {
+			// the zone: time.Local, or the zone of that very clock reading (time.Now() is in time.Local)
+			locOK := isLocal(a[7])
+			if !locOK {
+				if rs := plainOrigins.Roots(a[7]); len(rs) == 1 && rs[0].Kind == "call" && rs[0].Fn != nil && rs[0].Fn.String() == "(time.Time).Location" {
+					rr := plainOrigins.Roots(rs[0].V.(*ssa.Call).Call.Args[0])
+					if len(rr) == 1 && rr[0].Kind == "call" && rr[0].V == ssa.Value(n1) {
+						locOK = true
+					}
+				}
+			}
+			if ok1 && ok2 && ok3 && n1 == n2 && n2 == n3 && isZero(a[3]) && isZero(a[4]) && isZero(a[5]) && isZero(a[6]) && locOK {
 				ok = true
 			}
 		})
